@@ -120,6 +120,21 @@ impl<'a> Evaluator<'a> {
         Mutex::into_inner(u).unwrap()
     }
 
+    /// The number of symbol usages that were tracked so far
+    pub fn num_usages(&self) -> usize {
+        self.usages.lock().unwrap().len()
+    }
+
+    /// Forgets the usages that were tracked after the first `mark` ones and that did not resolve to a symbol
+    pub fn forget_unresolved_usages_since(&self, mark: usize) {
+        let mut idx = 0;
+        self.usages.lock().unwrap().retain(|usage| {
+            let keep = idx < mark || usage.symbol_index.is_some();
+            idx += 1;
+            keep
+        });
+    }
+
     pub fn snapshot(&self) -> SymbolSnapshot {
         let symbols = self.symbols.clone();
         SymbolSnapshot {
